@@ -239,8 +239,36 @@ def i_quorum(kind, cmds):
     return list(s.get_quorum())
 
 
+def i_honest_spec(sc, m):
+    """1 iff the implementation summarises the PSBT.  The model side of this correspondence case is NOT the
+    model of describe but the declarative wallet relation Spec/PsbtHonest.v (honest_psbt_b), the premise of the
+    completeness theorem C11_honest_psbt_summarised: on every generated PSBT — honest ones (also those made by
+    create_multisig_psbt), every tampering, random mutations — "is an honest m-of-n wallet spend" has to coincide
+    with "the implementation returns a summary"."""
+    try:
+        i_describe(sc)
+    except AssertionError:
+        raise
+    except Exception:  # noqa
+        return 0
+    return 1
+
+
+def spec_m(sc):
+    """the threshold the first input's script states (0 when it states none)"""
+    i = sc[1][0]
+    s = (i[5] or i[4] or [[0]])[0]
+    return s[0] - 0x50 if s and isinstance(s[0], int) else 0
+
+
+def outside_spec(sc):
+    """PSBT shapes that describe_basic_multisig accepts although they are outside the declarative relation
+    (which is deliberately narrower): a payment output that carries scripts but no keys"""
+    return any((not o[4]) and (o[2] or o[3]) for o in sc[2])
+
+
 IMPL = {"describe": i_describe, "validate_in": i_validate_in, "validate_out": i_validate_out,
-        "quorum": i_quorum}
+        "quorum": i_quorum, "honest_spec": i_honest_spec}
 
 
 # ---------------------------------------------------------------- objects -> scenario, derive table
@@ -399,32 +427,263 @@ def honest(ctx, kind, m, n, n_in, spends, change, utxo="auto", fee=None, change_
     return with_table([NET, ins, outs, wallet_map(n), [], []])
 
 
-def helper_psbt(ctx, m, n, n_in, spends, change):
-    """honest P2SH PSBT made by psbt_helper.create_multisig_psbt; returns (psbt object, hdpubkey_map)"""
+def helper_args(ctx, m, n, n_in, spends, change):
+    """canonical arguments of psbt_helper.create_multisig_psbt for an honest P2SH wallet spend:
+    [records, ins, outs, fee]   records = [[xfp, xpub_b58, base_path]..]
+    ins = [[quorum_m, [[xfp, path]..], prev_tx_raw, prev_tx_hash, output_idx, output_sats]..]
+    outs = [[sats, address, quorum_m | -1, [[xfp, path]..]]..]        (strings as utf-8 bytes)"""
     r = ctx.rng
-    records = [[cosigner(c)[0].hex(), cosigner(c)[1].xpub(), "m/45'"] for c in range(n)]
+    records = [[cosigner(c)[0], cosigner(c)[1].xpub().encode(), b"m/45'"] for c in range(n)]
     fee = r.randrange(200, 5000)
     need = sum(spends) + (change or 0) + fee
-    input_dicts = []
+    ins = []
     for j in range(n_in):
         amount = need // n_in + (need % n_in if j == 0 else 0)
         i = make_input(ctx, "p2sh", m, wallet_keys(n, 0, j), amount, "nonwit")
-        input_dicts.append({"quorum_m": m,
-                            "path_dict": {cosigner(c)[0].hex(): path_str(key_path(0, j)) for c in range(n)},
-                            "prev_tx_dict": {"hex": i[2][0][2].hex(), "hash_hex": i[0].hex(), "output_idx": i[1],
-                                             "output_sats": amount}})
-    output_dicts = []
+        ins.append([m, [[cosigner(c)[0], path_str(key_path(0, j)).encode()] for c in range(n)],
+                    i[2][0][2], i[0], i[1], amount])
+    outs = []
     for a in spends:
-        output_dicts.append({"sats": a, "address": spk_obj(spend_output(ctx, a)[1]).address(NETS[NET])})
+        outs.append([a, spk_obj(spend_output(ctx, a)[1]).address(NETS[NET]).encode(), -1, []])
     if change is not None:
         j = r.randrange(0, 2)
         o = change_output("p2sh", m, wallet_keys(n, 1, j), change)
-        output_dicts.insert(r.randrange(0, len(output_dicts) + 1),
-                            {"sats": change, "address": spk_obj(o[1]).address(NETS[NET]), "quorum_m": m,
-                             "path_dict": {cosigner(c)[0].hex(): path_str(key_path(1, j)) for c in range(n)}})
-    p = create_multisig_psbt(records, input_dicts, output_dicts, fee, script_type="p2sh")
+        outs.insert(r.randrange(0, len(outs) + 1),
+                    [change, spk_obj(o[1]).address(NETS[NET]).encode(), m,
+                     [[cosigner(c)[0], path_str(key_path(1, j)).encode()] for c in range(n)]])
+    return [records, ins, outs, fee]
+
+
+def run_builder(bargs, script_type="p2sh"):
+    records, ins, outs, fee = bargs
+    recs = [[x.hex(), xp.decode(), bp.decode()] for x, xp, bp in records]
+    input_dicts = [{"quorum_m": m, "path_dict": {x.hex(): pth.decode() for x, pth in paths},
+                    "prev_tx_dict": {"hex": raw.hex(), "hash_hex": h.hex(), "output_idx": idx, "output_sats": sats}}
+                   for m, paths, raw, h, idx, sats in ins]
+    output_dicts = []
+    for sats, addr, m, paths in outs:
+        d = {"sats": sats, "address": addr.decode()}
+        if m >= 0:
+            d["quorum_m"] = m
+            d["path_dict"] = {x.hex(): pth.decode() for x, pth in paths}
+        output_dicts.append(d)
+    return create_multisig_psbt(recs, input_dicts, output_dicts, fee, script_type=script_type)
+
+
+def helper_psbt(ctx, m, n, n_in, spends, change):
+    """honest P2SH PSBT made by psbt_helper.create_multisig_psbt; returns (psbt object, hdpubkey_map, args)"""
+    bargs = helper_args(ctx, m, n, n_in, spends, change)
+    p = run_builder(bargs)
     hmap = {cosigner(c)[0].hex(): HDPublicKey.parse(cosigner(c)[1].xpub()) for c in range(n)}
-    return p, hmap
+    return p, hmap, bargs
+
+
+# ---- create_multisig_psbt as a correspondence case: the model (Model/PsbtBuilder.v) gets what the implementation's
+# own parsers make of the strings; the implementation gets the strings
+def builder_case(bargs):
+    """[recs, ins, outs, fee, btab, dtab] for the op create_psbt:
+    rec = [xfp, xpub_b58, base_path, base comps, xpub_id, depth, net]     in = [m, paths, raw tx, hash, idx, sats, [hash, outs]]
+    out = [sats, address, m, paths, scriptPubKey cmds]
+    btab = [[xfp, path, [] | [sec, comps]]..]   what _safe_get_child_hdpubkey + NamedHDPublicKey.from_hd_pub give
+    dtab = [[xpub_id, comps, [] | [sec]]..]     HDPublicKey.child iterated (PSBT.validate's descendant check)"""
+    from buidl.psbt_helper import _safe_get_child_hdpubkey
+    from collections import defaultdict
+    records, ins, outs, fee = bargs
+    recs, xfp_dict = [], defaultdict(dict)
+    for xfp, xp, bp in records:
+        o = HDPublicKey.parse(xp.decode())
+        xfp_dict[xfp.hex()][bp.decode()] = o
+        xid = o.raw_serialize()
+        _XPUBS.setdefault(xid, o)
+        comps = _comps(b"\0\0\0\0" + psbt_mod.serialize_binary_path(bp.decode()))
+        recs.append([xfp, xp, bp, comps, xid, o.depth, NETS.index(o.network)])
+    btab, dtab = {}, {}
+    for paths in [i[1] for i in ins] + [o[3] for o in outs]:
+        for xfp, pth in paths:
+            try:
+                child = _safe_get_child_hdpubkey(xfp_dict, xfp.hex(), pth.decode(), 0)
+                nh = NamedHDPublicKey.from_hd_pub(HDPublicKey.raw_parse(BytesIO(child.raw_serialize()),
+                                                                        network=child.network),
+                                                  xfp.hex(), pth.decode())
+                btab[(xfp, pth)] = [nh.sec(), _comps(nh.raw_path)]
+            except AssertionError:
+                raise
+            except Exception:  # noqa
+                btab[(xfp, pth)] = []
+    for (xfp, pth), v in btab.items():
+        if v:
+            for r in recs:
+                if r[0] == xfp and v[1][:len(r[3])] == r[3]:
+                    t = v[1][len(r[3]):]
+                    sec = derive_children(r[4], t)
+                    dtab[(r[4], tuple(t))] = [] if sec is None else [sec]
+    mins = []
+    for m, paths, raw, h, idx, sats in ins:
+        tx = Tx.parse(BytesIO(raw), network=NETS[NET])
+        mins.append([m, paths, raw, h, idx, sats,
+                     [tx.hash(), [[o.amount, list(o.script_pubkey.commands)] for o in tx.tx_outs]]])
+    mouts = [[sats, addr, m, paths, list(address_to_script_pubkey(addr.decode()).commands)]
+             for sats, addr, m, paths in outs]
+    return [recs, mins, mouts, fee, [[x, pth, v] for (x, pth), v in btab.items()],
+            [[xid, list(t), v] for (xid, t), v in dtab.items()]]
+
+
+def i_create_psbt(recs, ins, outs, fee, btab, dtab):
+    """create_multisig_psbt on the strings; the resulting PSBT object as [ins, outs, hd_pubs] records"""
+    with _memo_mul():
+        p = run_builder([[r[:3] for r in recs], [i[:6] for i in ins], [o[:4] for o in outs], fee])
+    sc = to_scenario(p, {})
+    pins = [[i[0], i[1], [x[:2] for x in i[2]], i[3], i[4], i[5], i[6], i[7]] for i in sc[1]]
+    return [pins, sc[2], sc[4]]
+
+
+IMPL["create_psbt"] = i_create_psbt
+
+
+def _bump_path(pth):
+    head, _, last = pth.decode().rpartition("/")
+    return (head + "/" + str(int(last) + 1)).encode()
+
+
+BUILDER_TAMPERS = ["fee", "output-sats", "hash-hex", "input-quorum", "input-path", "spend-amount", "unknown-xfp",
+                   "script-type", "change-address", "change-path", "change-quorum", "change-amount",
+                   "input-index"]
+
+
+def builder_tamper(ctx, bargs, kind):
+    """the honest builder arguments with one cross-checked datum altered (None when not applicable)"""
+    t = _copy.deepcopy(bargs)
+    records, ins, outs, fee = t
+    r = ctx.rng
+    n = len(records)
+    i = ins[r.randrange(len(ins))]
+    chg = [o for o in outs if o[2] >= 0]
+    if kind == "fee":
+        t[3] = fee + r.choice([-1, 1, 1000])
+    elif kind == "output-sats":
+        i[5] += r.choice([-1, 1, 100000])
+    elif kind == "hash-hex":
+        i[3] = ctx.rbytes(32)
+    elif kind == "input-quorum":
+        if n < 2:
+            return None
+        i[0] = i[0] + 1 if i[0] < n else i[0] - 1
+    elif kind == "input-path":
+        pp = i[1][r.randrange(n)]
+        pp[1] = _bump_path(pp[1])
+    elif kind == "input-index":
+        tx = Tx.parse(BytesIO(i[2]), network=NETS[NET])
+        if len(tx.tx_outs) < 2:
+            return None
+        i[4] = (i[4] + 1) % len(tx.tx_outs)
+        i[5] = tx.tx_outs[i[4]].amount
+        t[3] = None                          # recomputed below: the fee is made consistent
+    elif kind == "spend-amount":
+        o = outs[r.randrange(len(outs))]
+        o[0] += r.choice([-1, 1])
+    elif kind == "unknown-xfp":
+        i[1][r.randrange(n)][0] = ctx.rbytes(4)
+    elif kind == "script-type":
+        pass
+    elif not chg:
+        return None
+    elif kind == "change-address":
+        evil = msig_cmds(1, [k[0] for k in _foreign_keys(1)])
+        chg[0][1] = spk_obj(p2sh_of(evil)).address(NETS[NET]).encode()
+    elif kind == "change-path":
+        pp = chg[0][3][r.randrange(n)]
+        pp[1] = _bump_path(pp[1])
+    elif kind == "change-quorum":
+        if n < 2:
+            return None
+        chg[0][2] = chg[0][2] + 1 if chg[0][2] < n else chg[0][2] - 1
+    elif kind == "change-amount":
+        chg[0][0] += 1
+    if t[3] is None:
+        t[3] = sum(x[5] for x in ins) - sum(o[0] for o in outs)
+    return t
+
+
+BUILDER_VARIANTS = ["spend-to-input-script", "change-without-paths", "same-outpoint-twice", "dup-xfp", "m-zero",
+                    "m-too-big", "empty-path-dict", "extra-record", "record-depth", "index-out-of-range"]
+
+
+def builder_variant(ctx, bargs, kind):
+    """further builder arguments for the correspondence with Model/PsbtBuilder.v (accepted or refused - whatever
+    the implementation does, the model has to do the same): branches of PSBTIn/PSBTOut.update and of the lookups"""
+    t = _copy.deepcopy(bargs)
+    records, ins, outs, fee = t
+    r = ctx.rng
+    n = len(records)
+    chg = [o for o in outs if o[2] >= 0]
+    if kind == "spend-to-input-script":
+        tx = Tx.parse(BytesIO(ins[0][2]), network=NETS[NET])
+        a = max(1, fee // 2)
+        outs.append([a, tx.tx_outs[ins[0][4]].script_pubkey.address(NETS[NET]).encode(), -1, []])
+        t[3] = fee - a
+    elif kind == "change-without-paths":
+        if not chg:
+            return None
+        chg[0][2], chg[0][3] = -1, []
+    elif kind == "same-outpoint-twice":
+        ins.append(_copy.deepcopy(ins[0]))
+        t[3] = fee + ins[0][5]
+    elif kind == "dup-xfp":
+        if n < 2:
+            return None
+        ins[0][1][1][0] = ins[0][1][0][0]
+    elif kind == "m-zero":
+        ins[0][0] = 0
+    elif kind == "m-too-big":
+        (chg[0] if chg else ins[0])[2 if chg else 0] = n + 1
+    elif kind == "empty-path-dict":
+        if not chg:
+            return None
+        chg[0][3] = []
+    elif kind == "extra-record":
+        records.append([cosigner(11)[0], cosigner(11)[1].xpub().encode(), b"m/45'"])
+    elif kind == "record-depth":
+        records[r.randrange(n)][2] = b"m/45'/0"
+    elif kind == "index-out-of-range":
+        ins[0][4] = 7
+    return t
+
+
+def p_builder_crosschecks(kind, bargs):
+    """psbt_helper.create_multisig_psbt: honest arguments give a PSBT that the summary describes with exactly the
+    fee, the payments and the change the caller stated (also after a serialisation round trip, where tx_in._value
+    is set by PSBTIn.parse); arguments with ONE altered datum (fee, amount, hash, index, threshold, path,
+    fingerprint, change address / path / threshold, script type) are refused"""
+    with _memo_mul():
+        return _builder_crosschecks(kind.decode(), bargs)
+
+
+def _builder_crosschecks(kind, bargs):
+    try:
+        p = run_builder(bargs, "p2wsh" if kind == "script-type" else "p2sh")
+    except AssertionError:
+        raise
+    except Exception as e:  # noqa
+        return None if kind != "honest" else "honest arguments refused: %r" % (e,)
+    if kind != "honest":
+        return "arguments with tampering %s were accepted by create_multisig_psbt" % kind
+    records, ins, outs, fee = bargs
+    for q in (p, PSBT.parse(BytesIO(p.serialize()), network=p.network)):
+        if [pi.tx_in._value for pi in q.psbt_ins] != [i[5] for i in ins]:
+            return "tx_in._value is not the amount of the attached UTXO record"
+        d = q.describe_basic_multisig()
+        if d["tx_fee_sats"] != fee:
+            return "summary fee %d, builder fee %d" % (d["tx_fee_sats"], fee)
+        if [o["is_change"] for o in d["outputs_desc"]] != [o[2] >= 0 for o in outs]:
+            return "change flags differ from the builder's path_dict outputs"
+        if [(o["sats"], o["addr"]) for o in d["outputs_desc"]] != [(o[0], o[1].decode()) for o in outs]:
+            return "outputs differ from the builder's"
+        if d["spend_sats"] != sum(o[0] for o in outs if o[2] < 0) or \
+                d["change_sats"] != sum(o[0] for o in outs if o[2] >= 0):
+            return "spend / change totals"
+        if d["total_input_sats"] != sum(i[5] for i in ins):
+            return "total input"
+    return None
 
 
 # ---------------------------------------------------------------- the tamper catalogue
@@ -637,6 +896,26 @@ def tampers(ctx, sc):
         amount = i[7][0] + 100000
         i[3] = [[amount, i[2][0][1][i[1]][1]]]; i[2] = []; i[7] = [amount]
         yield "p2sh-witness-utxo", t
+    # fixed defect F-C11-no-utxo-record (786fa3c): no input carries a UTXO record - tx_in._value is what
+    # tx_in.value() caches after fetching the previous transaction - and (n >= 2) every input claims another
+    # threshold with the genuine keys; the "change" output really is such a script.  Nothing could be compared
+    # with the spent scriptPubKey; the PSBT was summarised with the claimed threshold.
+    t = cp()
+    m2 = (m + 1 if m < n else m - 1) if n >= 2 else m
+    for i in t[1]:
+        i[2] = []; i[3] = []
+        if kind == "p2sh":
+            i[4] = [[0x50 + m2] + i[4][0][1:]]
+        else:
+            i[5] = [[0x50 + m2] + i[5][0][1:]]
+    if c is not None:
+        o = t[2][c]
+        _set_out_script(o, kind, msig_cmds(m2, [p[1] for p in o[4]]), True)
+    yield "no-utxo-record", t
+    # the same on ONE input only, everything else genuine
+    if n_in >= 2:
+        t = cp(); i = t[1][r.randrange(n_in)]; i[2] = []; i[3] = []
+        yield "no-utxo-record-one-input", t
 
 
 # ---------------------------------------------------------------- property predicates
@@ -842,7 +1121,8 @@ def _describe_reuse(scs, mode):
 
 
 PROPS = {"tamper_rejected": p_tamper_rejected, "honest_summary": p_honest_summary,
-         "rebuild_same": p_rebuild_same, "describe_reuse": p_describe_reuse}
+         "rebuild_same": p_rebuild_same, "describe_reuse": p_describe_reuse,
+         "builder_crosschecks": p_builder_crosschecks}
 
 # tamperings that the implementation is KNOWN to summarise (findings/C11.json); everything else that is
 # accepted is a violation.  The structural test ties the key to the shape of the PSBT, not only to the label.
@@ -870,11 +1150,21 @@ RULE = ("Wallets: every 1 <= m <= n <= 3 (quick) / 4 (thorough), P2SH built by p
         "1..3 outputs, with and without change.  Every honest PSBT is checked for the arithmetic identities and the "
         "change flags, then EVERY tampering of the catalogue is applied (each must raise) and every honest and "
         "tampered PSBT is also a correspondence case for describe (verdict and summary fields); random structural "
-        "mutations and an exhaustive sweep of script shapes feed validate_in / validate_out / get_quorum.")
+        "mutations and an exhaustive sweep of script shapes feed validate_in / validate_out / get_quorum.  Every honest, "
+        "tampered and mutated PSBT is also given to the declarative wallet relation Spec/PsbtHonest.v (op honest_spec), "
+        "which has to coincide with the implementation's verdict.  create_multisig_psbt is called with honest arguments "
+        "(result summarised with the stated fee / payments / change, before and after a serialisation round trip) and "
+        "with one cross-checked datum altered (must raise); the same arguments and further variants (payment to the "
+        "wallet's own input script, change without path_dict, the same outpoint twice, duplicate fingerprint, "
+        "threshold 0 / n+1, an extra record, a record with a wrong depth, an index out of range) are correspondence "
+        "cases for the builder model (op create_psbt: the returned PSBT object field by field, or the refusal).")
 TRUSTED = ["hashlib (sha256, ripemd160) — hash160/sha256 are universally quantified functions in the theorems",
            "HDPublicKey.child/traverse (C08) — `derive` is an abstract function in the theorems; the correspondence "
            "feeds the model the implementation's own derivation results as a lookup table",
            "Tx.hash of the previous transaction (C04) — abstract txid in the model",
+           "builder model (Model/PsbtBuilder.v): HDPublicKey.parse, Tx.parse_hex, address_to_script_pubkey and "
+           "_safe_get_child_hdpubkey + NamedHDPublicKey.from_hd_pub are executed by the implementation and handed to the "
+           "model as data (records, previous transactions, scriptPubKeys, a derivation table)",
            "modelled, not verified: address encoding of the summary (the model returns scripts), the text fields, "
            "bip32_derivs listing, string handling of ltrim_path/is_valid_bip32_path on paths that do not come from "
            "parse_binary_path, partial-signature and final-script branches of PSBT.validate (C10)"]
@@ -985,9 +1275,25 @@ def generate(ctx):
                 if var == "helper":
                     if not spends and change is None:
                         spends = [1000]
-                    p, hmap = helper_psbt(ctx, m, n, n_in, spends, change)
+                    p, hmap, bargs = helper_psbt(ctx, m, n, n_in, spends, change)
                     sc = to_scenario(p, hmap)
                     yield ("prop", "rebuild_same", [sc, p.serialize()])
+                    ctx.label("builder honest")
+                    yield ("prop", "builder_crosschecks", [b"honest", bargs])
+                    yield ("corr", "create_psbt", builder_case(bargs))
+                    kinds = BUILDER_TAMPERS if ctx.tier != "quick" else r.sample(BUILDER_TAMPERS, 5)
+                    for bk in kinds:
+                        bt = builder_tamper(ctx, bargs, bk)
+                        if bt is not None:
+                            ctx.label("builder tamper " + bk)
+                            yield ("prop", "builder_crosschecks", [bk.encode(), bt])
+                            if bk != "script-type":
+                                yield ("corr", "create_psbt", builder_case(bt))
+                    for bk in (BUILDER_VARIANTS if ctx.tier != "quick" else r.sample(BUILDER_VARIANTS, 4)):
+                        bt = builder_variant(ctx, bargs, bk)
+                        if bt is not None:
+                            ctx.label("builder variant " + bk)
+                            yield ("corr", "create_psbt", builder_case(bt))
                     nomap = with_table([sc[0], sc[1], sc[2], [], sc[4], []])
                     yield ("corr", "describe", [nomap])
                 else:
@@ -998,6 +1304,10 @@ def generate(ctx):
                     sc = honest(ctx, kind, m, n, n_in, spends, change, utxo=ut or "auto", change_kind=ck)
                 yield ("corr", "describe", [sc])
                 yield ("prop", "honest_summary", [sc, m, n])
+                ctx.label("honest_spec/honest")
+                yield ("corr", "honest_spec", [sc, m])
+                if var == "helper":
+                    yield ("corr", "honest_spec", [nomap, m])
                 for k in range(len(sc[1])):
                     yield ("corr", "validate_in", [sc, k])
                 for k in range(len(sc[2])):
@@ -1008,6 +1318,9 @@ def generate(ctx):
                     ctx.label("tamper " + kind)
                     yield ("prop", "tamper_rejected", [kind.encode(), t])
                     yield ("corr", "describe", [t])
+                    if not outside_spec(t):
+                        ctx.label("honest_spec/tampered")
+                        yield ("corr", "honest_spec", [t, spec_m(t)])
                     tlist.append((kind, t))
                 # ---- the same states on ONE object, edited in place between the descriptions: every tampering of
                 # the catalogue between two honest states (chunks of six), then another honest state (an output
@@ -1036,5 +1349,8 @@ def generate(ctx):
                         yield ("prop", "describe_reuse", [[t for _, t in reversed(ch)] + [sc], 1])
                 for t in mutations(ctx, sc, ctx.n(4, 20)):
                     yield ("corr", "describe", [t])
+                    if not outside_spec(t):
+                        ctx.label("honest_spec/mutated")
+                        yield ("corr", "honest_spec", [t, spec_m(t)])
                     yield ("corr", "validate_in", [t, 0])
                     yield ("corr", "validate_out", [t, r.randrange(len(t[2]))])
